@@ -1,6 +1,7 @@
 import MesaModel.Gen.FnLegacy
 import MesaModel.Proofs.LegacyOrth
 import MesaModel.Proofs.LegacySet
+import MesaModel.Proofs.Legacy
 /-!
 Equivalence of the definitions GENERATED from mesa/space.py (`Gen/FnLegacy.lean`, rewritten by `harness/py2lean.py` on
 every check) with the hand-written model `Model/Legacy.lean` / `Model/LegacyNbhd.lean` (C09, C08).
@@ -286,9 +287,9 @@ theorem C08_gen_place_agent_eq_model (s : GenFn.LSpace) (cutoff : Nat) (posf : A
   rw [← he]
   rw [is_cell_empty_self]
   cases hc : GenFn.is_cell_empty s p
-  · simp only [Bool.false_eq_true, if_false, resConv, GenFn.LSpace.put, lagent, updA_self, and_true]
+  · simp only [Bool.not_false, Bool.false_eq_true, if_true, if_false, resConv, GenFn.LSpace.put, lagent, updA_self, and_true]
   · obtain ⟨x, y⟩ := p
-    simp only [if_true, resConv, GenFn.LSpace.put, lagent, and_true]
+    simp only [Bool.not_true, Bool.false_eq_true, if_true, if_false, resConv, GenFn.LSpace.put, lagent, and_true]
     simp only [absSingle]
     rw [tabAbs_set2 _ _ _ _ _ hs.1 (x, y) hp, tabAbs_set2 _ _ _ _ _ hs.2 (x, y) hp]
     cases s._empties_built <;> simp [cellAbs, Py.setDiscard, sdiscard, bne]
@@ -361,7 +362,7 @@ theorem C08_place_agent_views_generated (s : GenFn.LSpace) (ag : GenFn.LAgent) (
   have hm : p.1.toNat < s._empty_mask.length := by rw [hs.2.1]; omega
   have hmr : p.2.toNat < (s._empty_mask.getD p.1.toNat []).length := by rw [hs.2.2 _ (by omega)]; omega
   obtain ⟨x, y⟩ := p
-  simp only [GenFn.place_agent, he, if_true]
+  simp only [GenFn.place_agent, he, Bool.not_true, Bool.false_eq_true, if_true, if_false]
   refine ⟨trivial, trivial, ?_, ?_, ?_⟩
   · rw [get2_set2 _ _ _ _ _ _ h1 h3 h1 h3 hg hgr]; simp
   · intro hb; simp [hb, Py.setDiscard]
@@ -390,4 +391,229 @@ theorem C08_remove_agent_views_generated (s : GenFn.LSpace) (ag : GenFn.LAgent) 
 theorem C18_place_agent_rejected_unchanged_generated (s : GenFn.LSpace) (ag : GenFn.LAgent) (p : Coord)
     (he : GenFn.is_cell_empty s p = false) :
     GenFn.place_agent s ag p = (.error Py.Err.Exception, s._grid, s._empties, s._empty_mask, ag.pos) := by
-  simp only [GenFn.place_agent, he, Bool.false_eq_true, if_false]
+  simp only [GenFn.place_agent, he, Bool.not_false, Bool.false_eq_true, if_true, if_false]
+
+/-! ### `_Grid.move_agent` on a SingleGrid and `SingleGrid.move_agent` (torus_adj, remove, place chained) -/
+
+theorem updA_updA {β : Type} (f : Aid → β) (a : Aid) (x y : β) : updA (updA f a x) a y = updA f a y := by
+  funext b; unfold updA; split <;> rfl
+
+/-- `torus_adj` reads the geometry only -/
+theorem torus_adj_congr (s t : GenFn.LGrid) (p : Coord) (h1 : s.width = t.width) (h2 : s.height = t.height) (h3 : s.torus = t.torus) :
+    GenFn.torus_adj s p = GenFn.torus_adj t p := by
+  obtain ⟨x, y⟩ := p
+  simp only [GenFn.torus_adj, GenFn.out_of_bounds, h1, h2, h3]
+
+theorem Shaped_put_set2 (s : GenFn.LSpace) (hs : Shaped s) (i j i' j' : Int) (v : Option Int) (b : Bool) (e : List (Int × Int))
+    (ap : Option (Int × Int)) : Shaped (s.put (Py.set2 s._grid i j v, e, Py.set2 s._empty_mask i' j' b, ap)) :=
+  ⟨hs.1.set2 _ _ _, hs.2.set2 _ _ _⟩
+
+theorem Shaped_remove (s : GenFn.LSpace) (hs : Shaped s) (ag : GenFn.LAgent) : Shaped (s.put (GenFn.remove_agent s ag)) := by
+  unfold GenFn.remove_agent
+  cases ag.pos with
+  | none => exact hs
+  | some p => obtain ⟨x, y⟩ := p; exact Shaped_put_set2 s hs _ _ _ _ _ _ _ _
+
+/-- the model's `place` does not look at the representation of `empties` -/
+theorem place_sameSets (g1 g2 : Grid) (h : g1.sameSets g2) (a : Aid) (p : Coord) :
+    (g1.place a p).1.sameSets (g2.place a p).1 ∧ (g1.place a p).2 = (g2.place a p).2 := by
+  obtain ⟨h1, h2⟩ := h
+  have h1' := h1
+  simp only [Grid.mk.injEq] at h1'
+  obtain ⟨hw, hh, ht, hm, hcu, hc, hp, _, hk⟩ := h1'
+  have he : sameMembers (g1.empties.map (sdiscard p)) (g2.empties.map (sdiscard p)) := by
+    revert h2
+    cases g1.empties <;> cases g2.empties <;> simp only [sameMembers, Option.map_some, Option.map_none, imp_self]
+    intro h q; simp only [mem_sdiscard, h q]
+  unfold Grid.place Grid.isCellEmpty
+  simp only [hc, hm, hp, hk, hw, hh, ht, hcu]
+  refine ⟨?_, ?_⟩
+  · split
+    · split
+      · exact ⟨rfl, he⟩
+      · exact ⟨h1, h2⟩
+    · split
+      · exact ⟨rfl, he⟩
+      · exact ⟨h1, h2⟩
+  · split <;> split <;> rfl
+
+theorem sameSets_trans {g1 g2 g3 : Grid} (h : g1.sameSets g2) (h' : g2.sameSets g3) : g1.sameSets g3 := by
+  refine ⟨h.1.trans h'.1, ?_⟩
+  have a := h.2; have b := h'.2
+  revert a b
+  cases g1.empties <;> cases g2.empties <;> cases g3.empties <;> simp only [sameMembers, imp_self, implies_true, false_imp_iff, true_imp_iff]
+  · intro a b q; exact (a q).trans (b q)
+
+theorem abs_dims (s : GenFn.LSpace) (cutoff : Nat) (posf : Aid → Option Coord) :
+    (absSingle s cutoff posf).w = s.width ∧ (absSingle s cutoff posf).h = s.height ∧ (absSingle s cutoff posf).torus = s.torus :=
+  ⟨rfl, rfl, rfl⟩
+
+/-- the generated `torus_adj`, called on the geometry of a state record, is the model's `torusAdj` of the grid it stands for -/
+theorem gen_torus_adj_abs (s : GenFn.LSpace) (cutoff : Nat) (posf : Aid → Option Coord) (hw : 0 < s.width) (hh : 0 < s.height) (p : Coord) :
+    GenFn.torus_adj ({ width := s.width, height := s.height, torus := s.torus, _neighborhood_cache := s._neighborhood_cache } : GenFn.LGrid) p
+      = errConv ((absSingle s cutoff posf).torusAdj p) := by
+  rw [← C08_gen_torus_adj_eq_model (absSingle s cutoff posf) hw hh [] p]
+  exact torus_adj_congr _ _ p rfl rfl rfl
+
+/-- remove then place, as `_Grid.move_agent` chains them, refines the model's remove then place -/
+theorem gen_remove_place (s : GenFn.LSpace) (cutoff : Nat) (posf : Aid → Option Coord) (a : Aid) (q : Coord)
+    (hs : Shaped s) (hq : inGrid s.width s.height q) (hpa : ∀ p, posf a = some p → inGrid s.width s.height p) :
+    let r1 := GenFn.remove_agent s (lagent posf a)
+    let r2 := GenFn.place_agent (s.put r1) (lagent (updA posf a r1.2.2.2) a) q
+    (absSingle ((s.put r1).put r2.2) cutoff (updA posf a r2.2.2.2.2)).sameSets (((absSingle s cutoff posf).remove a).1.place a q).1
+      ∧ resConv r2.1 = (((absSingle s cutoff posf).remove a).1.place a q).2 := by
+  intro r1 r2
+  have hrem := C08_gen_remove_agent_eq_model s cutoff posf a hs hpa
+  have hs1 : Shaped (s.put r1) := Shaped_remove s hs _
+  have hpl := C08_gen_place_agent_eq_model (s.put r1) cutoff (updA posf a r1.2.2.2) a q hs1 hq
+  have hcong := place_sameSets _ _ hrem.1 a q
+  rw [updA_updA] at hpl
+  refine ⟨?_, hpl.2.trans hcong.2⟩
+  have := hpl.1
+  exact this ▸ hcong.1
+
+/-- how a generated caller hands on the result of a raising mutator: same tables, same outcome -/
+def rewrap {T : Type} (x : Except Py.Err Unit × T) : Except Py.Err Unit × T :=
+  match x.1 with
+  | .error e => (.error e, x.2)
+  | .ok _ => (.ok (), x.2)
+
+theorem rewrap_eq {T : Type} (x : Except Py.Err Unit × T) : rewrap x = x := by
+  obtain ⟨r, t⟩ := x
+  cases r <;> rfl
+
+theorem resConv_ok (r : Except Py.Err Unit) (m : Res) (h : resConv r = m) : r = .ok () ↔ m = .ok := by
+  subst h; cases r <;> simp [resConv]
+
+theorem moveBase_ok_eq (g : Grid) (a : Aid) (p q : Coord) (ht : g.torusAdj p = .ok q) (hr : (g.remove a).2 = .ok) :
+    g.moveBase a p = (g.remove a).1.place a q := by
+  unfold Grid.moveBase
+  rw [ht]
+  rcases hrm : g.remove a with ⟨g1, r⟩
+  rw [hrm] at hr
+  simp only at hr
+  subst hr
+  rfl
+
+theorem moveBase_err_eq (g : Grid) (a : Aid) (p : Coord) (e : Err) (ht : g.torusAdj p = .error e) :
+    g.moveBase a p = (g, .err e) := by
+  unfold Grid.moveBase
+  rw [ht]
+
+theorem C08_gen_move_agent_base_eq_model (s : GenFn.LSpace) (cutoff : Nat) (posf : Aid → Option Coord) (a : Aid) (p : Coord)
+    (hs : Shaped s) (hw : 0 < s.width) (hh : 0 < s.height) (hpa : ∀ q, posf a = some q → inGrid s.width s.height q) :
+    (absSingle (s.put (GenFn.move_agent_base s (lagent posf a) p).2) cutoff
+        (updA posf a (GenFn.move_agent_base s (lagent posf a) p).2.2.2.2)).sameSets ((absSingle s cutoff posf).moveBase a p).1
+      ∧ ((GenFn.move_agent_base s (lagent posf a) p).1 = .ok () ↔ ((absSingle s cutoff posf).moveBase a p).2 = .ok) := by
+  unfold GenFn.move_agent_base
+  simp only [gen_torus_adj_abs s cutoff posf hw hh]
+  cases ht : (absSingle s cutoff posf).torusAdj p with
+  | error e =>
+    rw [moveBase_err_eq _ a p e ht]
+    simp only [errConv, GenFn.LSpace.put, lagent, updA_self]
+    exact ⟨Grid.sameSets_refl _, by simp⟩
+  | ok q =>
+    have hq : inGrid s.width s.height q := (torusAdj_ok _ hw hh p q ht).1
+    obtain ⟨h1, h2⟩ := gen_remove_place s cutoff posf a q hs hq hpa
+    have hr := (C08_gen_remove_agent_eq_model s cutoff posf a hs hpa).2
+    simp only [lagent, updA_same] at h1 h2
+    simp only [errConv]
+    rw [moveBase_ok_eq _ a p q ht hr]
+    change (absSingle (s.put (rewrap (GenFn.place_agent (s.put (GenFn.remove_agent s (lagent posf a)))
+        { unique_id := (a : Int), pos := (GenFn.remove_agent s (lagent posf a)).2.2.2 } q)).2) cutoff
+        (updA posf a (rewrap (GenFn.place_agent (s.put (GenFn.remove_agent s (lagent posf a)))
+        { unique_id := (a : Int), pos := (GenFn.remove_agent s (lagent posf a)).2.2.2 } q)).2.2.2.2)).sameSets _
+      ∧ ((rewrap (GenFn.place_agent (s.put (GenFn.remove_agent s (lagent posf a)))
+        { unique_id := (a : Int), pos := (GenFn.remove_agent s (lagent posf a)).2.2.2 } q)).1 = .ok () ↔ _)
+    rw [rewrap_eq]
+    exact ⟨h1, resConv_ok _ _ h2⟩
+
+theorem move_single_ok_eq (g : Grid) (hm : g.multi = false) (a : Aid) (p q : Coord) (ht : g.torusAdj p = .ok q) :
+    g.move a p = if !g.isCellEmpty q && g.content q != [a] then (g, .err .full) else g.moveBase a q := by
+  unfold Grid.move
+  rw [ht]
+  simp only [hm, Bool.false_eq_true, if_false]
+
+theorem move_single_err_eq (g : Grid) (hm : g.multi = false) (a : Aid) (p : Coord) (e : Err) (ht : g.torusAdj p = .error e) :
+    g.move a p = (g, .err e) := by
+  unfold Grid.move
+  rw [ht]
+  simp only [hm, Bool.false_eq_true, if_false]
+
+/-- agent ids stored in the cell table are naturals (`unique_id` counts from 1; the model's `Aid` is `Nat`) -/
+def IdsNat (s : GenFn.LSpace) : Prop := ∀ x y b, Py.get2 s._grid x y = some b → 0 ≤ b
+
+theorem cell_ne_agent (c : Option Int) (a : Aid) (h : ∀ b, c = some b → 0 ≤ b) : (c != some (a : Int)) = (cellAbs c != [a]) := by
+  cases c with
+  | none => first | rfl | simp [cellAbs, bne]
+  | some b =>
+    have := h b rfl
+    rw [Bool.eq_iff_iff]
+    simp only [cellAbs, bne_iff_ne, ne_eq, Option.some.injEq, List.cons.injEq, and_true]
+    constructor
+    · intro h1 h2; apply h1; rw [← h2, Int.toNat_of_nonneg this]
+    · intro h1 h2; apply h1; rw [h2, Int.toNat_natCast]
+
+/-- `SingleGrid.move_agent` as generated refines the model's `move` of a SingleGrid -/
+theorem C08_gen_move_agent_eq_model (s : GenFn.LSpace) (cutoff : Nat) (posf : Aid → Option Coord) (a : Aid) (p : Coord)
+    (hs : Shaped s) (hid : IdsNat s) (hw : 0 < s.width) (hh : 0 < s.height) (hpa : ∀ q, posf a = some q → inGrid s.width s.height q) :
+    (absSingle (s.put (GenFn.move_agent s (lagent posf a) p).2) cutoff
+        (updA posf a (GenFn.move_agent s (lagent posf a) p).2.2.2.2)).sameSets ((absSingle s cutoff posf).move a p).1
+      ∧ ((GenFn.move_agent s (lagent posf a) p).1 = .ok () ↔ ((absSingle s cutoff posf).move a p).2 = .ok) := by
+  unfold GenFn.move_agent
+  simp only [gen_torus_adj_abs s cutoff posf hw hh]
+  cases ht : (absSingle s cutoff posf).torusAdj p with
+  | error e =>
+    rw [move_single_err_eq _ rfl a p e ht]
+    simp only [errConv, GenFn.LSpace.put, lagent, updA_self]
+    exact ⟨Grid.sameSets_refl _, by simp⟩
+  | ok q =>
+    have hq : inGrid s.width s.height q := (torusAdj_ok _ hw hh p q ht).1
+    have he := C08_gen_is_cell_empty_eq_model s cutoff posf q hq
+    have hc : (Py.get2 s._grid q.1 q.2 != some (a : Int)) = ((absSingle s cutoff posf).content q != [a]) := by
+      rw [cell_ne_agent _ a (hid q.1 q.2)]
+      simp only [absSingle, tabAbs, hq, if_true]
+    rw [move_single_ok_eq _ rfl a p q ht, ← he, ← hc]
+    obtain ⟨x, y⟩ := q
+    have hb := C08_gen_move_agent_base_eq_model s cutoff posf a (x, y) hs hw hh hpa
+    -- the two outcomes, independent of how the source spells the test
+    have hGo : (absSingle (s.put (rewrap (GenFn.move_agent_base s (lagent posf a) (x, y))).2) cutoff
+          (updA posf a (rewrap (GenFn.move_agent_base s (lagent posf a) (x, y))).2.2.2.2)).sameSets
+            ((absSingle s cutoff posf).moveBase a (x, y)).1
+        ∧ ((rewrap (GenFn.move_agent_base s (lagent posf a) (x, y))).1 = .ok () ↔ ((absSingle s cutoff posf).moveBase a (x, y)).2 = .ok) := by
+      rw [rewrap_eq]; exact hb
+    have hRej : (absSingle (s.put (s._grid, s._empties, s._empty_mask, (lagent posf a).pos)) cutoff
+          (updA posf a (lagent posf a).pos)).sameSets (absSingle s cutoff posf)
+        ∧ ((Except.error Py.Err.Exception : Except Py.Err Unit) = .ok () ↔ Res.err Err.full = Res.ok) :=
+      ⟨by simpa [lagent, updA_self, GenFn.LSpace.put] using Grid.sameSets_refl _, by simp⟩
+    simp only [errConv]
+    cases hE : GenFn.is_cell_empty s (x, y) <;> by_cases hN : Py.get2 s._grid x y = some (a : Int)
+    all_goals
+      have hN1 : (Py.get2 s._grid x y == some (a : Int)) = decide (Py.get2 s._grid x y = some (a : Int)) := by
+        rw [Bool.eq_iff_iff]; simp
+      have hN2 : (Py.get2 s._grid x y != some (a : Int)) = !decide (Py.get2 s._grid x y = some (a : Int)) := by
+        rw [bne, hN1]
+      simp only [lagent, hN1, hN2, hN, hE, beq_self_eq_true, bne_self_eq_false, decide_true, decide_false, Bool.not_true, Bool.not_false, Bool.and_true, Bool.and_false,
+        Bool.true_and, Bool.false_and, Bool.or_true, Bool.or_false, Bool.true_or, Bool.false_or, Bool.false_eq_true,
+        if_true, if_false]
+      first
+        | exact hGo
+        | exact hRej
+
+/-- C18 over the generated text: `SingleGrid.move_agent` to a cell occupied by ANOTHER agent (after the torus adjustment), or to a
+    coordinate `torus_adj` rejects, raises and hands back every table and `agent.pos` untouched -/
+theorem C18_move_agent_rejected_unchanged_generated (s : GenFn.LSpace) (ag : GenFn.LAgent) (p : Coord) :
+    (∀ q, GenFn.torus_adj ({ width := s.width, height := s.height, torus := s.torus, _neighborhood_cache := s._neighborhood_cache } : GenFn.LGrid) p = .ok q →
+        GenFn.is_cell_empty s q = false → Py.get2 s._grid q.1 q.2 ≠ some ag.unique_id →
+        GenFn.move_agent s ag p = (.error Py.Err.Exception, s._grid, s._empties, s._empty_mask, ag.pos))
+      ∧ (∀ e, GenFn.torus_adj ({ width := s.width, height := s.height, torus := s.torus, _neighborhood_cache := s._neighborhood_cache } : GenFn.LGrid) p = .error e →
+        GenFn.move_agent s ag p = (.error e, s._grid, s._empties, s._empty_mask, ag.pos)) := by
+  constructor
+  · intro q ht he hne
+    obtain ⟨x, y⟩ := q
+    have hb : (Py.get2 s._grid x y != some ag.unique_id) = true := by simpa using hne
+    have hb2 : (Py.get2 s._grid x y == some ag.unique_id) = false := by simpa using hne
+    simp only [GenFn.move_agent, ht, he, hb, hb2, Bool.not_false, Bool.not_true, Bool.and_self, Bool.or_self, Bool.or_false,
+      Bool.false_or, Bool.and_true, Bool.true_and, if_true]
+  · intro e ht
+    simp only [GenFn.move_agent, ht]
